@@ -163,3 +163,5 @@ func view32(rb *roaring.Bitmap, ot *objTable) View {
 	v.Set = normalize(spans)
 	return v
 }
+
+func uintptrOf(b []byte) uintptr { return uintptr(unsafe.Pointer(unsafe.SliceData(b))) }
